@@ -108,7 +108,20 @@ def judge(rng, ref, wd, fa, counters, viol, synthetic=False):
             fh.write('# comment line\n')
         if has_header:
             fh.write(delim.join(['transcript_id', 'gene', 'TPM']) + '\n')
+        # transcripts that occur only in entries exempt from the expression rule (fusion / circRNA / splice-altering), or in no
+        # entry at all, may be absent from the table (e.g. a fusion partner that was not quantified)
+        needed = set()
+        for h_, _s in fa:
+            for e_ in h_.split(' '):
+                kind_, txs_, ids_ = entry_info(e_)
+                if not (kind_ in ('fusion', 'circ') or (kind_ == 'base' and not is_novel_orf(e_) and any(is_as_id(x) for x in ids_))):
+                    needed.update(txs_)
+        optional = [t for t in txs if t not in needed]
+        omitted = set(rng.sample(optional, rng.randint(1, len(optional)))) if optional and rng.random() < 0.5 else set()
+        counters['tables_with_missing_transcripts'] = int(bool(omitted))
         for t in txs:
+            if t in omitted:
+                continue
             fh.write(delim.join([t, 'G', repr(exprs[t])]) + '\n')
     use_expr = rng.random() < 0.8
     if has_header and rng.random() < 0.5:
